@@ -77,20 +77,25 @@ func (f *fAdapterTransport) Open() error {
 		}
 	}
 
-	go f.readLoop()
+	// Every open gets its own close signal: a token left behind by a close
+	// that the read loop performed itself (peer EOF or read error) must not
+	// be mistaken for a requested close by the read loop of a later open,
+	// nor fill the channel a later Close() sends on.
+	f.closeSignal = make(chan struct{}, 1)
+	go f.readLoop(f.closeSignal)
 	f.isOpen = true
 	f.closeChan = make(chan error, 1)
 	return nil
 }
 
-func (f *fAdapterTransport) readLoop() {
+func (f *fAdapterTransport) readLoop(closeSignal chan struct{}) {
 	framedTransport := NewTFramedTransport(f.transport)
 	for {
 		frame, err := f.readFrame(framedTransport)
 		if err != nil {
 			// First check if the transport was closed.
 			select {
-			case <-f.closeSignal:
+			case <-closeSignal:
 				// Transport was closed.
 				return
 			default:
@@ -98,19 +103,19 @@ func (f *fAdapterTransport) readLoop() {
 
 			if err, ok := err.(thrift.TTransportException); ok && err.TypeId() == TRANSPORT_EXCEPTION_END_OF_FILE {
 				// EOF indicates remote peer disconnected.
-				f.Close()
+				f.closeFor(closeSignal, nil)
 				return
 			}
 
 			logger().Error("frugal: error reading protocol frame, closing transport: ", err)
-			f.close(err)
+			f.closeFor(closeSignal, err)
 			return
 		}
 
 		if err := f.registry.Execute(frame); err != nil {
 			// An error here indicates an unrecoverable error, teardown transport.
 			logger().Error("frugal: closing transport due to unrecoverable error processing frame: ", err)
-			f.close(err)
+			f.closeFor(closeSignal, err)
 			return
 		}
 	}
@@ -142,10 +147,18 @@ func (f *fAdapterTransport) Close() error {
 }
 
 func (f *fAdapterTransport) close(cause error) error {
+	return f.closeFor(nil, cause)
+}
+
+// closeFor closes the transport. A read loop passes the close signal of the
+// open it was started for: if the transport has been closed and reopened in
+// the meantime, the failure it saw belongs to a connection that is already
+// gone and must not close the new one.
+func (f *fAdapterTransport) closeFor(owner chan struct{}, cause error) error {
 	f.mu.Lock()
 	defer f.mu.Unlock()
 
-	if !f.isOpen {
+	if !f.isOpen || (owner != nil && owner != f.closeSignal) {
 		return thrift.NewTTransportException(TRANSPORT_EXCEPTION_NOT_OPEN, "Transport not open")
 	}
 
